@@ -822,7 +822,13 @@ class _ExecutorManagerThread(threading.Thread):
         self.executor_flags.flag_as_broken(bpe)
 
         # Mark pending tasks as failed.
-        for work_item in self.pending_work_items.values():
+        # The queue feeder thread can concurrently pop items from this dict in
+        # _on_queue_feeder_error: do not iterate over it, drain it.
+        while True:
+            try:
+                _, work_item = self.pending_work_items.popitem()
+            except KeyError:
+                break
             try:
                 work_item.future.set_exception(bpe)
             except InvalidStateError:
@@ -831,7 +837,6 @@ class _ExecutorManagerThread(threading.Thread):
                 pass
             # Delete references to object. See issue16284
             del work_item
-        self.pending_work_items.clear()
 
         # Terminate remaining workers forcibly: the queues or their
         # locks may be in a dirty state and block forever.
